@@ -141,7 +141,7 @@ def run(tier):
     # type legality per position: every written type up to nesting depth 2/3 x every declaration position,
     # real codes vs Model/TypeLegal.v
     from .. import gen_legal, compare_legal
-    depth = 2 if tier == "quick" else 3
+    depth = 3 if tier == "quick" else 4
     lcases, litems, lmeta = [], [], {}
     for pos in gen_legal.positions():
         for t in gen_legal.types(depth):
@@ -198,7 +198,7 @@ def run(tier):
         ck.violation("tie-broken:proof", "Props/C11.v no longer checks", getattr(ck, "proof_output", "")[-2000:])
     ck.coverage.update(
         evaluations=len(cases) + len(pc), distinct_nontrivial=len(distinct),
-        rule="random dependency graphs of 2-7 constants and structures (edges through constant expressions, size-of, member types, named array lengths; 35% with back edges), each in two source orders: acyclic must be accepted, cyclic rejected with a cycle code, both orders alike; scoper depths and cycle codes vs Model/Containers.v fed with the edge list in processing order; every written type up to nesting depth 2 (quick) / 3 (thorough) over 9 leaves and 7 constructors at every declaration position (variable, size-of, constant, parameter with and without body, return type, struct member, word member of every size; plain, pub, extern, pub extern): the reported codes must be exactly those of Model/TypeLegal.v; every word of 1-4 members of 1/2/4/8 bytes at every declared size (E380 iff the aligned size exceeds it, per Model/Layout.v); plus generated programs (with constants defined from constants, structures, words, functions) under 3 random permutations of ALL their top-level declarations (same verdict and lli output); distinct = distinct graphs",
+        rule="random dependency graphs of 2-7 constants and structures (edges through constant expressions, size-of, member types, named array lengths; 35% with back edges), each in two source orders: acyclic must be accepted, cyclic rejected with a cycle code, both orders alike; scoper depths and cycle codes vs Model/Containers.v fed with the edge list in processing order; every written type up to nesting depth 3 (quick) / 4 (thorough) over 9 leaves and 7 constructors at every declaration position (variable, size-of, constant, parameter with and without body, return type, struct member, word member of every size; plain, pub, extern, pub extern): the reported codes must be exactly those of Model/TypeLegal.v; every word of 1-4 members of 1/2/4/8 bytes at every declared size (E380 iff the aligned size exceeds it, per Model/Layout.v); plus generated programs (with constants defined from constants, structures, words, functions) under 3 random permutations of ALL their top-level declarations (same verdict and lli output); distinct = distinct graphs",
         graph_stats=dict(stats), problems=mism, permuted_programs=compared,
         samples=[dict(source=cases[0][1], graph=meta[cases[0][0]][1], real=impl.get(cases[0][0], ["?"])[0])])
     ck.assumptions += ["the edge list given to the model is computed by the generator in the order the scoper visits declarations, value expressions, members and array types",
